@@ -59,7 +59,8 @@ def flag_governed_failure(ctx: Ctx) -> None:
     raises = [r for r in _raises(g) if "Unknown property" in _msg(fi, r)]
     ok = len(tests) == 1 and len(raises) == 1 and g.only_if(raises[0].id, tests[0].id, True)
     ctx.ob("ElementNode.child: 'Unknown property' raised only if fail_on_unknown_properties", ok, at=fi, construct="unknown property raise", msg="raise not governed by the flag being true")
-    skips = [n for n in g.returns() if isinstance(n.ast.value, ast.Call) and unparse(n.ast.value.func).endswith("SkipNode")]
+    # the statement that creates the SkipNode: returned directly, or stored in the local that is returned
+    skips = [n for n in g.stmts() if n.kind == "stmt" and isinstance(n.ast, (ast.Return, ast.Assign, ast.AnnAssign)) and isinstance(n.ast.value, ast.Call) and unparse(n.ast.value.func).endswith("SkipNode")]
     ok2 = bool(tests) and bool(skips) and all(g.only_if(s.id, tests[0].id, False) for s in skips) and any(
         s.id in g.reachable([m for m, lab in g.succ[tests[0].id] if lab == "false"]) for s in skips)
     ctx.ob("ElementNode.child: with the flag off an unknown child yields SkipNode()", ok2, at=fi, construct="unknown property skip", msg="no SkipNode on the tolerant branch")
